@@ -234,6 +234,45 @@ func VerifC06_CascadeFromSeveralStores() {
 	verifC04CascadeSeveral(vStoreCfg{fk: []int{vFkIndexCascade, vFkConstraintCascade}[verifrt.Choose("wiring", 2)]})
 }
 
+// VerifC06_DeleteWhere: DeleteWhere removes exactly the entities matching the
+// filter, each without a trace, and leaves the others intact.
+func VerifC06_DeleteWhere() {
+	cfg := vStoreCfg{nickNullable: true, links: true}
+	env := verifNewEnv(cfg)
+	defer env.close()
+	env.createDepts("x")
+	n := 3
+	has := make([]bool, n)
+	for i := 0; i < n; i++ {
+		has[i] = verifrt.Bool("role.r1")
+		e := &vEmp{Id: "victim" + vIds[i], Name: "N" + vIds[i], Roles: []string{"r2"}}
+		if has[i] {
+			e.Roles = []string{"r1", "r2"}
+		}
+		err := env.update(func(ctx MutateContext) error {
+			if err := env.emp.Create(ctx, e); err != nil {
+				return err
+			}
+			return env.emp.depts.AddLinks(ctx.Tx(), e.Id, "x")
+		})
+		verifrt.Assert(err == nil, "C06 DeleteWhere population setup succeeds")
+	}
+	err := env.update(func(ctx MutateContext) error { return env.emp.DeleteWhere(ctx, `anyOf(roles) = "r1"`) })
+	verifrt.Assert(err == nil, "C06 DeleteWhere succeeds")
+	env.view(func(tx *bbolt.Tx) {
+		for i := 0; i < n; i++ {
+			id := "victim" + vIds[i]
+			verifrt.Assert(verifScanForId(tx, id) == !has[i], "C06 DeleteWhere removes exactly the matching entities, leaving no trace of them")
+		}
+	})
+	rep, ierr := env.checkIntegrity(false)
+	verifrt.Assert(ierr == nil && rep.total == 0, "C06 after DeleteWhere the indexes and links mirror the remaining entities")
+}
+
+func init() {
+	verifQueryFamilies = append(verifQueryFamilies, func() []string { return []string{`anyOf(roles) = "r1"`} })
+}
+
 // second child store with an index of its own
 type vTransit struct {
 	vEmp
